@@ -166,8 +166,8 @@ def check_flags(case, ev):
 
 def parts(tier):
     return [
-        Part("partial", strategy=lambda t: partial_case(t), check=check_partial, quick=(6, 150), thorough=(12, 2500)),
+        Part("partial", strategy=lambda t: partial_case(t), check=check_partial, quick=(6, 350), thorough=(12, 2500)),
         Part("flags", strategy=lambda t: S.model_spec(depth=3, allow_fix=True, allow_const_leaves=True,
                                                       profile="large").map(lambda s: {"model": s}),
-             check=check_flags, quick=(2, 250), thorough=(4, 3000)),
+             check=check_flags, quick=(2, 600), thorough=(4, 3000)),
     ]
